@@ -306,6 +306,42 @@ def run_graph(w, graph_index: int, is_async: bool, with_falsy: bool) -> None:
     execute_graph(w, graph_index, is_async, spec, model, scripts, budgets, probe_info, expect, obj_classes, truth, tops[:6])
 
 
+def run_directed(w, graph_index: int, is_async: bool) -> None:
+    """Directed graphs: a contract probe re-enters its own function EVERY time it runs, after another contracted function was checked in
+    between (called by the probe itself and, every time, by the body); termination rests on the suspension rule alone."""
+    rng = w.rng
+    ids = gen.Ids()
+    spec, model, _scripts, _budgets, probe_info, expect, obj_classes, _truth = make_graph(rng, ids, is_async, False)
+    names = [f["name"] for f in spec["funcs"]]
+    inf = 10 ** 9
+    made = 0
+    for role in ("pre", "post", "snap", "inv"):
+        if role == "inv":
+            pids = [pid for pid, info in probe_info.items() if info["role"] == "inv"]
+            if not pids or not obj_classes:
+                continue
+            obj = sorted(obj_classes)[0]
+            mn = rng.choice(("ma", "mb"))
+            other = ("func", rng.choice(names))
+            scripts = {pids[0]: [other, ("method", "self", mn)]}
+            for cname in ("K0", "K1"):
+                scripts["{}_{}".format(cname, mn)] = [other]
+            tops = [("method", obj, mn)]
+        else:
+            cands = [n for n in names if expect[n][role]]
+            if not cands or len(names) < 2:
+                continue
+            name = rng.choice(cands)
+            other = ("func", rng.choice([n for n in names if n != name]))
+            scripts = {expect[name][role][-1]: [other, ("func", name)], name: [other]}
+            tops = [("func", name)]
+        scripts = {k: v for k, v in scripts.items() if k in probe_info}
+        budgets = {k: inf for k in scripts}
+        w.count("directed_graphs")
+        made += 1
+        execute_graph(w, graph_index, is_async, spec, model, scripts, budgets, probe_info, expect, obj_classes, {}, tops)
+
+
 def execute_graph(w, graph_index, is_async, spec, model, scripts, budgets, probe_info, expect, obj_classes, truth, tops) -> None:
     loaded = prog.load(spec, w.scratch())
     hub = loaded.hub
@@ -493,6 +529,8 @@ def run(w) -> None:
             continue
         w.count("graphs")
         run_graph(w, i, is_async=(i % 3 == 2), with_falsy=(i % 5 == 4))
+        if i % 25 == 0:
+            run_directed(w, i, is_async=(i % 50 == 0))
     w.exhaustive = False
 
 
